@@ -52,7 +52,7 @@ def replay(spec):
         itf = (SafeModelCSimInterface if spec.get("safe") else ModelCSimInterface)(M)
         itf.py_prep_deterministic_simulation()
         x = np.array([abs(float(v.get("x_%d" % i, 1.0))) + 1.0 for i in range(S)])
-        dx = np.zeros(S)
+        dx = np.full(S, 7.25)              # an output array with stale contents
         itf.py_calculate_deterministic_derivative(x, dx, 0.0)
         for i in range(S):
             want = sum((U[i][j] + D[i][j]) * a[j] for j in range(R))
@@ -60,7 +60,7 @@ def replay(spec):
                 problems.append("d%s/dt = %r, expected %r (immediate %s, delayed %s, rates %s)" % (names[i], dx[i], want, U[i], D[i], a))
     elif kind in ("derivative", "model_derivative"):
         k1, k2, k3 = 0.7, 0.4, 1.3
-        M = Model(species=["B", "A", "C"],
+        M = Model(species=["B", "A", "C", "Z"],
                   reactions=[(["A", "A"], ["B"], "massaction", {"k": k1}),
                              (["A", "B"], ["A"], "massaction", {"k": k2}, "fixed", [], ["C", "C"], {"delay": 1.0}),
                              ([], ["A"], "massaction", {"k": k3})]
@@ -69,12 +69,13 @@ def replay(spec):
         itf = (SafeModelCSimInterface if spec.get("safe") else ModelCSimInterface)(M)
         itf.py_prep_deterministic_simulation()
         for st in ({"A": 2.5, "B": 1.5, "C": 0.5}, {"A": 6.0, "B": 0.5, "C": 0.0}):       # net flux B->C backwards / forwards
+            st = dict(st, Z=4.0)
             x = np.array([st[s] for s in M.get_species_list()])
-            dx = np.zeros(3)
+            dx = np.full(4, 7.25)              # an output array with stale contents
             itf.py_calculate_deterministic_derivative(x, dx, 0.0)
             A, B = st["A"], st["B"]
             r4 = 0.0 if spec.get("safe") else 0.2 * A - 0.9 * B
-            want = {"A": -2 * k1 * A * A + k3, "B": k1 * A * A - k2 * A * B - r4, "C": 2 * k2 * A * B + r4}
+            want = {"A": -2 * k1 * A * A + k3, "B": k1 * A * A - k2 * A * B - r4, "C": 2 * k2 * A * B + r4, "Z": 0.0}
             for i, s in enumerate(M.get_species_list()):
                 if abs(dx[i] - want[s]) > 1e-9:
                     problems.append("at %s: d%s/dt = %r, expected %r" % (st, s, dx[i], want[s]))
